@@ -3,11 +3,11 @@
    Model: model/Entity.v (entityNode.run after fix d657973).  [expand e] is what the
    walker emits (Err for an unknown default status filter / duplicate summary name),
    [compile e] adds the reference resolution of j5convert. *)
-From Coq Require Import String List NArith Bool.
+From Coq Require Import String List NArith Bool Permutation.
 From J5V.lib Require Import Outcome Strcase.
-From J5V.model Require Import Entity.
+From J5V.model Require Import Entity EntityClient.
 From J5V.gen Require EntityGen.
-From J5V.proofs Require Import StrcaseProofs EntityProofs EntityGenProofs EntityReadmeProofs.
+From J5V.proofs Require Import StrcaseProofs EntityProofs EntityGenProofs EntityReadmeProofs EntityClientProofs.
 Import ListNotations.
 Local Open Scope N_scope.
 
@@ -269,6 +269,30 @@ Theorem C17_client_view : forall e fl,
   /\ map fst (ce_query_methods c) = [query_prefix e ++ bs "Get"; query_prefix e ++ bs "List"; query_prefix e ++ bs "Events"].
 Proof. exact client_view_consistent. Qed.
 Print Assumptions C17_client_view.
+
+(* the grouping done by the client (model/EntityClient.v: findPSMOptions, includeEntity, the service
+   loop, StateEntity.ToJ5Proto): the package's objects are visited in Go map order, so the theorem
+   quantifies over EVERY order: always exactly one state entity with the declared name, State
+   schema, primary keys in declaration order, one event per declared event, the query service
+   with Get/List/Events and the declared command services in order *)
+Theorem C17_client_groups_any_order : forall e fl objs,
+  Permutation (main_messages (expand_with e fl)) objs ->
+  client_of_ordered msg_entity (e_pkg e) (expand_with e fl) objs = Some [grouping_view e].
+Proof. exact client_groups_any_order. Qed.
+Print Assumptions C17_client_groups_any_order.
+
+(* the defect repaired by fix 2072988: with the pre-fix inference of findPSMOptions an object
+   embedding the keys is a second KEYS candidate; for one visiting order the reported primary
+   key is the declared one, for another it is empty *)
+Theorem C17_legacy_inference_refuted :
+  let cs := expand_with hijack_sample [] in
+  exists o1 o2,
+    Permutation (main_messages cs) o1 /\ Permutation (main_messages cs) o2
+    /\ client_of_ordered legacy_msg_entity (e_pkg hijack_sample) cs o1 = Some [grouping_view hijack_sample]
+    /\ (exists g, client_of_ordered legacy_msg_entity (e_pkg hijack_sample) cs o2 = Some [g]
+                  /\ g_primary_key g = [] /\ g_primary_key (grouping_view hijack_sample) = [bs "fooId"]).
+Proof. exact legacy_inference_refuted. Qed.
+Print Assumptions C17_legacy_inference_refuted.
 
 (* several entity declarations in one file: the result is the concatenation of the single
    expansions (so every theorem above applies to each part) and is closed as a whole *)
